@@ -316,6 +316,8 @@ def gen_plan(run_seed: int, k: int, tier: str) -> dict:
                 # whatever the scanner / grammar parser / optimizer keep must not reach the
                 # parsers made after it
                 ops.append({"op": "newbad", "gtext": pool.corrupt_grammar(rng, gsel[rng.choice(gids)]["text"]), "opt": rng.choice(oids)})
+            elif r < 0.4075:
+                ops.append({"op": "gflood", "n": rng.choice((6, 15, 40)), "m": rng.choice((8, 20)), "seed": rng.randrange(1 << 30)})
             elif r < 0.41:
                 ops.append({"op": "gc"})
             elif r < 0.43:
@@ -496,7 +498,7 @@ def gen_race_plan(run_seed: int, k: int) -> dict:
     return {"property": "C15", "kind": "race", "run_seed": run_seed, "job": k, "grammars": {g: gsel[g]["text"] for g in gids}, "optimizers": optimizers, "phases": phases}
 
 
-def gen_sweep_plan(run_seed: int, k: int) -> dict:
+def gen_sweep_plan(run_seed: int, k: int, tier: str = "quick") -> dict:
     """A SWEEP plan: one object kind (grammar, optimizer setting, interpreter | generated), a
     few call pairs (c1, c2), and EVERY single pre-emption of c1 by c2 that matters:
 
@@ -543,6 +545,16 @@ def gen_sweep_plan(run_seed: int, k: int) -> dict:
         optimizers = {"o_none": {"passes": None}, "o_shared": {"passes": list(pool.PASS_NAMES), "shared_default": True}, "o1": {"passes": pool.random_optimizer_cfg(rng)}, "o2": {"passes": pool.random_optimizer_cfg(rng)}}
         entries = []
         for n in names:
+            cs = gs[n]["calls"]
+            entries.append({"g": n, "opt": rng.choices(("o_none", "o_shared", "o1", "o2"), (3, 4, 2, 2))[0], "calls": [list(c) for c in rng.sample(cs, min(len(cs), 4))]})
+        for _ in range(rng.randint(1, 2)):
+            entries.insert(rng.randrange(1, len(entries)), {"gflood": {"n": rng.choice((12, 25, 45)), "m": rng.choice((8, 20, 30)), "seed": rng.randrange(1 << 30)}})
+        # CYCLES: a few hundred rules of noise, then one pool grammar built and generated again
+        # (and used), over and over -- a bounded table that restarts when it is full restarts at a
+        # different place of every cycle, sooner or later in the middle of a generate() that matters
+        for _ in range(8 if tier == "quick" else 50):
+            entries.append({"gflood": {"n": rng.choice((5, 7, 9, 11, 13)), "m": rng.choice((12, 20)), "seed": rng.randrange(1 << 30)}})
+            n = rng.choice(names)
             cs = gs[n]["calls"]
             entries.append({"g": n, "opt": rng.choices(("o_none", "o_shared", "o1", "o2"), (3, 4, 2, 2))[0], "calls": [list(c) for c in rng.sample(cs, min(len(cs), 4))]})
         return {"property": "C15", "kind": "sweep", "run_seed": run_seed, "job": k, "grammars": {n: gs[n]["text"] for n in gs}, "optimizers": optimizers,
@@ -691,10 +703,15 @@ def sweep_phases(plan):
     if plan["flavour"] == "marathon":
         ops = []
         for i, en in enumerate(plan["marathon"]):
+            if "gflood" in en:
+                ops.append({"op": "gflood", **en["gflood"], "oid": f"ma.flood{i}"})
+                continue
             ops += [{"op": "new", "id": f"p{i}", "g": en["g"], "opt": en["opt"], "debug": False, "oid": f"ma.new{i}"}, {"op": "gen", "id": f"m{i}", "p": f"p{i}", "oid": f"ma.gen{i}"}]
             for j, c in enumerate(en["calls"][:2]):
                 ops += [parse(f"p{i}", c, f"ma.e{i}.{j}.i"), parse(f"m{i}", c, f"ma.e{i}.{j}.g")]
         for i, en in enumerate(plan["marathon"]):
+            if "gflood" in en:
+                continue
             for j, c in enumerate(en["calls"]):
                 ops += [parse(f"p{i}", c, f"ma.z{i}.{j}.i"), parse(f"m{i}", c, f"ma.z{i}.{j}.g")]
         yield {"setup": ops, "clients": [], "schedule": {"first": None, "traced": False, "yields": []}, "faults": [], "history_first": 0}
@@ -1064,6 +1081,20 @@ def execute_plan(plan) -> dict:
             try:
                 for i in range(op["n"]):
                     call_raw(t["obj"], op["rule"], f"{op['text']}{i}", 0)
+            finally:
+                sched.arm()
+        elif kind == "gflood":
+            # GRAMMAR FLOOD: n synthetic grammars nobody else uses, built with the default
+            # optimizer and generated (not exec'ed), everything dropped at once -- noise that
+            # fills whatever is bounded process-wide; untraced, never pre-empted, nothing compared
+            sched.disarm()
+            try:
+                for i in range(op["n"]):
+                    try:
+                        SimParser.from_grammar(pool.flood_grammar(op["seed"], i, op["m"])).generate()
+                    except Exception as e:  # noqa: BLE001
+                        rec["gflood_exc"] = type(e).__name__
+                        break
             finally:
                 sched.arm()
         elif kind == "reads":
@@ -1571,7 +1602,7 @@ class Check:
             plan["hashseed"] = k % 4
             return plan
         if k % 6 == 1:
-            plan = gen_sweep_plan(common.derive_seed("C15-sweep", seed, k), k)
+            plan = gen_sweep_plan(common.derive_seed("C15-sweep", seed, k), k, tier)
             plan["hashseed"] = k % 4
             return plan
         plan = gen_plan(common.derive_seed("C15", seed, k), k, tier)
@@ -1907,7 +1938,7 @@ class Check:
                     sp = plan["optimizers"][oid]
                     return "None" if sp["passes"] is None else ("DEFAULT_OPTIMIZER" if sp.get("shared_default") else f"Optimizer({sp['passes']})")
                 es = plan["marathon"]
-                return f"marathon: {len(es)} parsers built and generated one after the other in one process, calls on every parser and module at the end: " + "; ".join(f"{en['g']} ({oname2(en['opt'])})" for en in es[:8]) + (" ..." if len(es) > 8 else "")
+                return f"marathon: {len(es)} steps (parsers built and generated one after the other in one process, grammar floods in between), calls on every parser and module at the end: " + "; ".join((f"{en['g']} ({oname2(en['opt'])})" if "g" in en else f"flood of {en['gflood']['n']} synthetic grammars x {en['gflood']['m']} rules") for en in es[:8]) + (" ..." if len(es) > 8 else "")
             if plan["flavour"] == "twin" and plan.get("settings"):
                 def oname(oid):
                     sp = plan["optimizers"][oid]
@@ -1957,6 +1988,8 @@ class Check:
                 return f"{op['t']}.parse({op['rule']!r}, {op['text'][:40]!r}{'...' if len(op['text']) > 40 else ''}{', start_pos=%d' % op['pos'] if op.get('pos') else ''}){' [result read at the end of the phase]' if op.get('defer') else ''}"
             if k in ("drop", "reads"):
                 return f"{k}({op['t']})"
+            if k == "gflood":
+                return f"grammar-flood({op['n']} synthetic grammars x {op['m']} rules: from_grammar + generate, dropped)"
             if k == "newbad":
                 return f"from_grammar(<corrupted grammar, {len(op['gtext'])} chars>) [expected to raise]"
             if k == "flood":
